@@ -55,13 +55,44 @@ type cwWriter struct {
 	name string
 }
 
+// wfail > 0: the writer call (Write / Sync / Flush of a manifest or table writer) that brings it to 0 fails without
+// touching the file; wfailHit records that it happened
+var (
+	wfail    int
+	wfailHit bool
+)
+
+func wfailNow() bool {
+	if wfail > 0 {
+		wfail--
+		if wfail == 0 {
+			wfailHit = true
+			return true
+		}
+	}
+	return false
+}
+
 func (w *cwWriter) Write(p []byte) (int, error) {
+	if wfailNow() {
+		return 0, errInjected
+	}
 	n, err := w.BufioWriter.Write(p)
 	crec.At("write " + w.name)
 	return n, err
 }
-func (w *cwWriter) Sync() error { err := w.BufioWriter.Sync(); crec.At("sync " + w.name); return err }
+func (w *cwWriter) Sync() error {
+	if wfailNow() {
+		return errInjected
+	}
+	err := w.BufioWriter.Sync()
+	crec.At("sync " + w.name)
+	return err
+}
 func (w *cwWriter) Flush() error {
+	if wfailNow() {
+		return errInjected
+	}
 	err := w.BufioWriter.Flush()
 	crec.At("flush " + w.name)
 	return err
@@ -140,6 +171,11 @@ type chistory struct {
 	// file (the stores stay pending, the next step's flush is the retry); -1 = PrepareFlush runs, one more series is
 	// created, PrepareFlush runs again, then Flush
 	Fail []int `json:"fail,omitempty"`
+	// WFail (metadata histories), per step: n > 0 = the n-th writer call (Write / Sync / Flush of a manifest or table
+	// writer) of that step's flush fails - a full disk, an I/O error; the flush reports it or not, either way the next
+	// flush cycle (PrepareFlush + Flush) follows at once and must succeed. Afterwards every name created so far still has
+	// its id - also when it is looked up after a brand-new field / tag key of its metric was created.
+	WFail []int `json:"wfail,omitempty"`
 }
 
 // failCountdown > 0: the table-file creation that brings it to 0 fails (set around one index flush)
@@ -153,6 +189,9 @@ func (h chistory) String() string {
 			return "series" + fmt.Sprint(h.Steps) + " disturbed-flush" + fmt.Sprint(h.Fail)
 		}
 		return "series" + fmt.Sprint(h.Steps)
+	}
+	if len(h.WFail) > 0 {
+		return fmt.Sprint(h.Steps) + " failed-write" + fmt.Sprint(h.WFail)
 	}
 	return fmt.Sprint(h.Steps)
 }
@@ -184,6 +223,9 @@ func createBatch(db index.MetricMetaDatabase, i int) (batchIDs, error) {
 }
 
 var cseen = map[string]bool{}
+
+// lastWFailHit: the last metadata history with a WFail entry really reached the writer call it wanted to fail
+var lastWFailHit bool
 var cRunNo int
 
 func runCrashHistory(rep *vevid.Report, h chistory) {
@@ -221,7 +263,7 @@ func runCrashHistory(rep *vevid.Report, h chistory) {
 	}
 	crec.Pause()
 	next := 0
-	for _, n := range h.Steps {
+	for si, n := range h.Steps {
 		for i := 0; i < n; i++ {
 			ids, err := createBatch(db, next)
 			if err != nil {
@@ -235,13 +277,48 @@ func runCrashHistory(rep *vevid.Report, h chistory) {
 		db.PrepareFlush()
 		crec.Resume()
 		crec.At("flush starts")
+		if si < len(h.WFail) && h.WFail[si] > 0 {
+			wfail, wfailHit = h.WFail[si], false
+		}
 		err := db.Flush()
+		injected := wfailHit
+		wfail, wfailHit = 0, false
 		crec.At("flush returned")
+		if injected {
+			rep.Count("meta_flushes_with_a_failed_write", 1)
+			lastWFailHit = true
+			// the next flush cycle
+			db.PrepareFlush()
+			err = db.Flush()
+			crec.At("repeated flush returned")
+		}
 		crec.Pause()
 		if err != nil {
 			viol("flush-failed", "index.MetricMetaDatabase.Flush", err.Error())
 			_ = db.Close()
 			return
+		}
+		if injected {
+			// live: ids are stable for as long as the node runs. A brand-new field and tag key of the metric first, then
+			// the old names: a schema that fell out of memory AND never reached the table hands the old ids out again
+			for i := 0; i < next; i++ {
+				b, want := batchOf(i), created[i]
+				m, err := db.GenMetricID([]byte(b.NS), []byte(b.Metric))
+				if err != nil || uint32(m) != want.Metric {
+					viol("id-changed-after-failed-flush", "index.GenMetricID", fmt.Sprintf("metric %s/%s had id %d, after a failed and repeated flush %d (%v)", b.NS, b.Metric, want.Metric, m, err))
+					continue
+				}
+				_, _ = db.GenFieldID(m, field.Meta{Name: field.Name(fmt.Sprintf("zz_new_%d", si)), Type: field.SumField})
+				_, _ = db.GenTagKeyID(m, []byte(fmt.Sprintf("zz_newkey_%d", si)))
+				if f, err := db.GenFieldID(m, field.Meta{Name: field.Name(b.Field), Type: field.SumField}); err != nil || uint32(f) != want.Field {
+					viol("id-changed-after-failed-flush", "index.GenFieldID", fmt.Sprintf("field %s of %s had id %d, after a failed and repeated flush %d (%v)", b.Field, b.Metric, want.Field, f, err))
+				}
+				if k, err := db.GenTagKeyID(m, []byte(b.TagKey)); err != nil || uint32(k) != want.TagKey {
+					viol("id-changed-after-failed-flush", "index.GenTagKeyID", fmt.Sprintf("tag key %s of %s had id %d, after a failed and repeated flush %d (%v)", b.TagKey, b.Metric, want.TagKey, k, err))
+				} else if v, err := db.GenTagValueID(k, []byte(b.TagValue)); err != nil || v != want.TagValue {
+					viol("id-changed-after-failed-flush", "index.GenTagValueID", fmt.Sprintf("tag value %s had id %d, after a failed and repeated flush %d (%v)", b.TagValue, want.TagValue, v, err))
+				}
+			}
 		}
 	}
 	points := crec.Points
@@ -649,6 +726,22 @@ func runCrashPart(rep *vevid.Report, f *vevid.Flags) {
 				idx++
 				if f.Mine(idx) && !f.Expired() {
 					runCrashHistory(rep, chistory{Steps: append([]int(nil), prefix...), Series: true})
+				}
+				// the metadata history with one failing writer call inside the flush of its LAST step with new names
+				// (every call of that flush in turn), for the short histories
+				if len(prefix) <= 2 && prefix[len(prefix)-1] > 0 {
+					idx++
+					if f.Mine(idx) && !f.Expired() {
+						for n := 1; n < 200; n++ {
+							wf := make([]int, len(prefix))
+							wf[len(prefix)-1] = n
+							lastWFailHit = false
+							runCrashHistory(rep, chistory{Steps: append([]int(nil), prefix...), WFail: wf})
+							if !lastWFailHit {
+								break // the flush makes fewer than n writer calls
+							}
+						}
+					}
 				}
 				// the same series history with ONE disturbed flush cycle: step j (which has new series, and is followed
 				// by a step with new series) fails at its k-th table file, or runs PrepareFlush twice
